@@ -98,3 +98,80 @@ func VH_C14_ttl() {
 	r3, _, _ := vhDo(s, "TTL", "k", "a")
 	vassert("C14.persist_clears", r3.Integer() == -1)
 }
+
+// VH_C14_hooks: hooks and channels created with EX expire the same way: the hook sweeper removes exactly those
+// whose (current) deadline has passed, a re-issued or deleted hook leaves no stale timer that removes it early
+// or removes its successor, the expiry index holds exactly the installed hooks with a deadline, and every
+// removal is logged so that a restart on the log gives the same hooks.
+//verif:cfg use=dirmodel b_hooks=channel_EX5+META,webhook_EX9,channel_without_EX b_history=none|same_definition_later_EX|same_definition_no_EX|changed_definition_later_EX|DELCHAN|webhook_sooner_EX|delete_and_recreate_without_EX|PDELCHAN b_now=any_whole_second_from_3s_before_to_40s_after_the_first_deadline ignorego=1
+func VH_C14_hooks() {
+	s, _ := vhShrinkServer()
+	fence := []string{"WITHIN", "k", "FENCE", "BOUNDS", "0", "0", "1", "1"}
+	vhWriteCmd(s, append([]string{"SETCHAN", "c1", "META", "m", "1", "EX", "5"}, fence...)...)
+	vhWriteCmd(s, append([]string{"SETHOOK", "h1", "http://h/", "EX", "9"}, fence...)...)
+	vhWriteCmd(s, append([]string{"SETCHAN", "c2"}, fence...)...)
+	vhWriteCmd(s, "SET", "k", "o", "POINT", "5", "5")
+	h0 := vhHook(s, "c1")
+	vassert("C14.hook_created_with_deadline", h0 != nil && !h0.expires.IsZero())
+	d0 := h0.expires
+	switch vchoose(8) {
+	case 1:
+		vhWriteCmd(s, append([]string{"SETCHAN", "c1", "META", "m", "1", "EX", "20"}, fence...)...)
+	case 2:
+		vhWriteCmd(s, append([]string{"SETCHAN", "c1", "META", "m", "1"}, fence...)...)
+	case 3:
+		vhWriteCmd(s, "SETCHAN", "c1", "META", "m", "1", "EX", "20", "WITHIN", "k", "FENCE", "BOUNDS", "0", "0", "2", "2")
+	case 4:
+		vhWriteCmd(s, "DELCHAN", "c1")
+	case 5:
+		vhWriteCmd(s, append([]string{"SETHOOK", "h1", "http://h/", "EX", "2"}, fence...)...)
+	case 6:
+		vhWriteCmd(s, "DELCHAN", "c1")
+		vhWriteCmd(s, append([]string{"SETCHAN", "c1"}, fence...)...)
+	case 7:
+		vhWriteCmd(s, "PDELCHAN", "c*")
+	}
+	names := [3]string{"c1", "h1", "c2"}
+	var had [3]bool
+	var dl [3]time.Time
+	for i, n := range names {
+		if h := vhHook(s, n); h != nil {
+			had[i], dl[i] = true, h.expires
+		}
+	}
+	delta := vnondetInt64()
+	vassume(delta >= -3 && delta <= 40)
+	now := d0.Add(time.Duration(delta) * time.Second)
+
+	s.backgroundExpireHooks(now)
+	s.flushAOF(false)
+
+	for i, n := range names {
+		still := vhHook(s, n) != nil
+		due := had[i] && !dl[i].IsZero() && !dl[i].After(now)
+		vassert("C14.hook_never_early_never_late", still == (had[i] && !due))
+	}
+	// the expiry index holds exactly the installed hooks that have a deadline
+	stale, indexed := false, 0
+	s.hookExpires.Ascend(nil, func(v interface{}) bool {
+		h := v.(*Hook)
+		if vhHook(s, h.Name) != h || h.expires.IsZero() {
+			stale = true
+		}
+		indexed++
+		return true
+	})
+	withDeadline := 0
+	for _, n := range names {
+		if h := vhHook(s, n); h != nil && !h.expires.IsZero() {
+			withDeadline++
+		}
+	}
+	vassert("C14.hook_expiry_index_has_no_stale_timer", !stale && indexed == withDeadline)
+	live := vhSnapshot(s)
+	rec, err := vhRestartOn(s.opts.AppendFileName)
+	vassert("C14.hook_expiry_restart_loads", err == nil)
+	vassert("C14.hook_expiry_is_logged_so_that_a_restart_agrees", rec == live)
+	vobs("hooksweep", delta, live)
+	vhCleanupShrink()
+}
